@@ -87,6 +87,9 @@ func runC18(c *eng.Ctx) {
 		if C18Concurrent != nil {
 			C18Concurrent(c, cr.next)
 		}
+		if C18Web != nil {
+			C18Web(c, cr.next)
+		}
 	}()
 	// (a) reserved types cannot be registered
 	for _, ra := range reservedAttempts() {
@@ -673,6 +676,10 @@ func CheckBuiltinArgs(r *Run, o *Obs, rootScope, rootCtx any) (fs []Finding, che
 	}
 	return
 }
+
+// C18Web is installed by package web: the request's context is what the scope middleware of every
+// integration creates the request's scope with.
+var C18Web func(c *eng.Ctx, next func() (int, bool))
 
 // C18Concurrent / C03Concurrent / C15Concurrent are installed by package conc: the same
 // oracles over workloads in which one constructor runs concurrently in several scopes.
